@@ -1052,6 +1052,138 @@ def table_cases(out, thorough):
             out[-1].tag = "table-wrapsize"
 
 
+# ---------------------------------------------------------------------------------------------- deterministic pipeline table
+def pipeline_table(out, thorough):
+    """VerifyScript dispatch, exhaustively over small ingredients: wrapper kind x inner script x stack x flag class x mutation"""
+    W, P = F["WITNESS"], F["P2SH"]
+    flag_sets = [0, P, P | W, P | W | F["CLEANSTACK"], STD, STD & ~F["DISCOURAGE_UPGRADABLE_WITNESS_PROGRAM"], P | F["SIGPUSHONLY"],
+                 P | W | F["MINIMALIF"], F["SIGPUSHONLY"]]
+    inners = [b"\x51", b"\x00", b"", sc("1", "1"), sc("DEPTH", "0", "EQUAL"), b"\x6a", sc("DROP", "1"), sc("IF", "1", "ELSE", "0", "ENDIF"), sc("1", "RESERVED"),
+              sc("NOP1", "1")]
+    stacks = [[], [b"\x01"], [b""], [b"\x02"], [b"\x01", b"\x01"]]
+    ctx = S.fmt_ctx()
+    muts = ["none", "sig+nop", "sig+push", "sig+reserved", "redeem-pd1", "redeem-pd2", "native-sig-00", "native-sig-61", "wit-wrong", "wit-none", "wit-extra",
+            "wit-unexpected", "unclean"]
+    for kind in ("bare", "p2sh", "p2wsh", "p2sh-p2wsh"):
+        for inner in inners:
+            for stack in (stacks if thorough else stacks[:3]):
+                for fl in flag_sets:
+                    for mut in muts:
+                        c = wrap(None, kind, inner, stack, fl, ctx)
+                        ssig, spk, wit = c.a
+                        last = inner if kind == "p2sh" else sc(0, push(sha256(inner)))
+                        if mut == "sig+nop":
+                            ssig += b"\x61"
+                        elif mut == "sig+push":
+                            ssig = b"\x51" + ssig
+                        elif mut == "sig+reserved":
+                            ssig = sc("0", "IF", "RESERVED", "ENDIF") + ssig
+                        elif mut in ("redeem-pd1", "redeem-pd2"):
+                            if kind not in ("p2sh", "p2sh-p2wsh"):
+                                continue
+                            ssig = ssig[: len(ssig) - len(push_min(last))] + push_form(last, 1 if mut.endswith("1") else 2)
+                        elif mut.startswith("native-sig-"):
+                            if kind != "p2wsh":
+                                continue
+                            ssig = bytes.fromhex(mut[-2:])
+                        elif mut == "wit-wrong":
+                            if not wit:
+                                continue
+                            wit = wit[:-1] + [wit[-1] + b"\x61"]
+                        elif mut == "wit-none":
+                            if not wit:
+                                continue
+                            wit = []
+                        elif mut == "wit-extra":
+                            if not wit:
+                                continue
+                            wit = [b"\x01"] + wit
+                        elif mut == "wit-unexpected":
+                            if wit:
+                                continue
+                            wit = [b"\x01"]
+                        elif mut == "unclean":
+                            if wit:
+                                continue
+                            ssig = b"\x51" + ssig
+                        c.a = (ssig, spk, wit)
+                        c.tag = "ptable-" + kind
+                        out.append(c)
+    # witness programs by version and length, native and P2SH-wrapped; all-zero programs (false top item)
+    for ver in (0x00, 0x4F, 0x50, 0x51, 0x52, 0x60, 0x61):
+        for ln in (1, 2, 3, 19, 20, 21, 31, 32, 33, 40, 41):
+            for fill in (0x00, 0x07):
+                prog = bytes([fill]) * ln
+                if fill == 0:
+                    prog = prog[:-1] + b"\x80" if ln % 2 else prog
+                spk0 = bytes([ver]) + push(prog)
+                for fl in (P | W, STD, STD & ~F["DISCOURAGE_UPGRADABLE_WITNESS_PROGRAM"], P, P | W | F["CLEANSTACK"]):
+                    for wit in ([], [b"\x01"], [b"", b""]):
+                        for ssig in (b"", b"\x51"):
+                            out.append(Case("verify", fl, (ssig, spk0, wit), ctx, tag="ptable-program"))
+                        out.append(Case("verify", fl, (push(spk0), sc("HASH160", push(h160(spk0)), "EQUAL"), wit), ctx, tag="ptable-program"))
+    # look-alikes of the P2SH pattern
+    h = bytes(range(1, 20))
+    for spk, ssig in ((sc("HASH160", "DROP", push(h), "EQUAL"), pushes([h, b"\x6a"])), (sc("HASH160", push(h + b"\x00\x00"), "EQUAL"), pushes([b"\x6a"])),
+                      (sc("HASH160", push_form(h160(b"\x51"), 1), "EQUAL"), pushes([b"\x51"])), (sc("HASH160", push(h160(b"\x51")), "EQUAL"), pushes([b"\x51"])),
+                      (sc("HASH160", push(h160(b"\x51")), "EQUAL", "NOP"), pushes([b"\x51"])), (sc("HASH160", push(h160(b"\x00")), "EQUAL"), pushes([b"\x00"])),
+                      (sc("HASH160", push(h160(b"\x51")), "EQUAL"), sc("NOP") + pushes([b"\x51"]))):
+        for fl in (0, P, P | W, STD):
+            out.append(Case("verify", fl, (ssig, spk, []), ctx, tag="ptable-p2sh-pattern"))
+
+
+# ---------------------------------------------------------------------------------------------- regression cases (one per repaired defect)
+def regression_cases():
+    """witnesses of the defects found by this check and repaired in the worktree (known_findings/C03.json `fixed`);
+    the same lines are in corpus/C03.txt"""
+    ctx = S.fmt_ctx()
+    E = lambda fl, script, stack=(), c=ctx, sv="0": Case("eval", fl, (script, list(stack)), c, sv, tag="regress")
+    V = lambda fl, ssig, spk, wit=(), c=ctx: Case("verify", fl, (ssig, spk, list(wit)), c, tag="regress")
+    W, P = F["WITNESS"], F["P2SH"]
+    out = [
+        E(0, bytes.fromhex("010073")),                                  # IFDUP on a non-empty false value
+        E(F["MINIMALDATA"], sc("1", "0NOTEQUAL")),                      # 0NOTEQUAL under MINIMALDATA
+        E(0, sc(push(b"\x01\x00\x00\x00\x00"), "0NOTEQUAL")),           # 0NOTEQUAL with a 5-byte operand
+        E(0, sc("0", "0", push(b"\x00" * 5), "CHECKMULTISIG")),          # 5-byte key count
+        E(0, sc("1", "0", push(b"\x05\x00\x00\x00\x00"), "WITHIN")),
+        E(0, sc("1", push(b"\x00" * 5), "PICK")),
+        E(0, sc("1", push(b"\x00" * 5), "ROLL")),
+        E(F["CHECKLOCKTIMEVERIFY"], sc(push(b"\x01\x00"), "CHECKLOCKTIMEVERIFY", "SIZE"), c=S.fmt_ctx(1, 10, 0)),   # operand re-encoded
+        E(F["CHECKSEQUENCEVERIFY"], sc(push(b"\x01\x00"), "CHECKSEQUENCEVERIFY", "SIZE"), c=S.fmt_ctx(2, 0, 10)),
+        E(F["MINIMALDATA"], push_form(b"\x42" * 256, 2)),                 # 256 bytes with PUSHDATA2 is minimal
+        E(F["MINIMALDATA"], b"\x4c\x00"),                                 # an empty PUSHDATA1 is not
+        E(0, b"\x51\x4c"),                                               # truncated PUSHDATA1 length
+        E(0, b"\x51\x4d\x01"),
+        E(0, b"", [b"\x01"] * 1001),                                      # oversized initial stack, nothing executed
+        E(0, sc("2DROP"), [b"\x01"] * 1001),
+        wrap(None, "p2wsh", big_script(521), [], P | W, ctx),            # witness script over 520 bytes
+        wrap(None, "p2sh-p2wsh", big_script(3600), [], P | W, ctx),
+        V(P | W, b"\x61", sc(0, push(sha256(b"\x51"))), [b"\x51"]),       # native witness program with a non-empty scriptSig that leaves no stack
+        V(P | W, push_form(sc(0, push(sha256(b"\x51"))), 1), sc("HASH160", push(h160(sc(0, push(sha256(b"\x51"))))), "EQUAL"), [b"\x51"]),
+        E(F["LOW_S"], sc(push(der_sig(1, S.N // 2 + 1) + b"\x01"), push(sec(0)), "CHECKSIG", "NOT")),   # high S between n/2 and p/2
+        E(F["LOW_S"], sc(push(der_sig(1, S.N // 2) + b"\x01"), push(sec(0)), "CHECKSIG", "NOT")),
+        E(F["LOW_S"], sc(push(der_sig(1, S.N) + b"\x01"), push(sec(0)), "CHECKSIG", "NOT")),            # S out of range is not "high"
+        E(F["STRICTENC"], sc("0", push(b"\x05" + b"\x11" * 32), "CHECKSIG", "NOT")),                  # key encoding checked although the signature is empty
+        E(F["STRICTENC"], sc("0", "0", "1", push(b"\x05" + b"\x11" * 32), "1", "CHECKMULTISIG", "NOT")),
+        E(F["WITNESS_PUBKEYTYPE"], sc("0", push(sec(0, "u")), "CHECKSIG", "NOT"), sv="1"),
+        E(F["WITNESS_PUBKEYTYPE"], sc("0", "0", "CHECKSIG", "NOT"), sv="1"),                           # empty key: IndexError
+        E(0, sc(push(b"\x30\x01"), push(sec(0)), "CHECKSIG", "NOT")),                                 # TypeError in der.read_length
+        E(0, sc(push(b"\x30"), push(sec(0)), "CHECKSIG", "NOT")),
+        V(P, pushes([bytes(range(1, 20)), b"\x6a"]), sc("HASH160", "DROP", push(bytes(range(1, 20))), "EQUAL")),   # 23 bytes a9 .. 87, not P2SH
+        V(P | W | F["CLEANSTACK"], b"", sc("2", push(b"\x07" * 32)), [b"\x51"]),                      # undefined witness version under CLEANSTACK
+        V(P | W | F["CLEANSTACK"], push(sc("16", push(b"\x07" * 40))), sc("HASH160", push(h160(sc("16", push(b"\x07" * 40)))), "EQUAL")),
+    ]
+    # real signatures: a key given as 04 + x only (33 bytes); a signature whose sequence length is off by one
+    for form, kw, notop in (("u33", {}, False), ("c5", {}, False), ("hbad", {}, False), ("c", {"seqdelta": -1}, False), ("c", {"seqdelta": -1}, True),
+                            ("c", {"trail": b"\x00"}, False)):
+        ki = 4 if form in ("u33", "c5") else 0
+        spk = sc(push(sec(ki, form)), "CHECKSIG") + (sc("NOT") if notop else b"")
+        c = V(0, b"", spk)
+        sig = sign(c.txinfo(), ki, spk, 1, "0", high_s=False, **kw)
+        out.append(V(0, push(sig), spk))
+    return out
+
+
 # ---------------------------------------------------------------------------------------------- gen
 def _emit_cases(cases, emit, ctx):
     S.resolve(cases)
@@ -1086,8 +1218,9 @@ def gen(ctx, emit):
         c.spec = None
     _emit_cases(vec_cases + tx_cases, emit, ctx)
 
-    cases: list = []
+    cases: list = regression_cases()
     table_cases(cases, ctx.thorough)
+    pipeline_table(cases, ctx.thorough)
     _emit_cases(cases, emit, ctx)
 
     def batch(n, f):
@@ -1106,9 +1239,9 @@ def gen(ctx, emit):
             sv = "1" if rng.random() < 0.2 else "0"
             cs.append(Case("eval", rand_eval_flags(rng), (synth_program(rng, minimal, S.parse_ctx(c)), rand_initial_stack(rng)), c, sv, tag="random-eval"))
 
-    batch(ctx.n(2500, 240000), random_evals)
-    batch(ctx.n(700, 40000), lambda k, cs: pipeline_scenarios(rng, k, cs))
-    batch(ctx.n(250, 12000), lambda k, cs: sig_scenarios(rng, k, cs))
+    batch(ctx.n(25000, 240000), random_evals)
+    batch(ctx.n(6000, 40000), lambda k, cs: pipeline_scenarios(rng, k, cs))
+    batch(ctx.n(1500, 12000), lambda k, cs: sig_scenarios(rng, k, cs))
     tot = STATS["same_code"] + STATS["diff_code"]
     ctx.extra_cov["error_code_agreement"] = {
         "both_fail": tot, "same_code": STATS["same_code"], "different_code": STATS["diff_code"],
